@@ -210,13 +210,13 @@ PROPS = {
                  "unknown service, service that already answered or was never queried, too few parameters; all reply kinds. Oracle: B's output is "
                  "empty at the stray step and byte-identical to A's at every other step through the final stats. Non-trivial = the stray line "
                  "resolved and the model classifies it as 'must be ignored' (pairs where it would be a genuine reply are skipped and counted).",
-                 700, 60000, {}, quick_s=80),
+                 1100, 60000, {}, quick_s=80),
     "C07": _spec("interleave", "Each evaluation: 2-6 client conversations (each generated online in a solo run, with its own service replies and, "
                  "when timeouts are on, its own expiry point) on distinct ids, merged under two seeded interleavings that preserve each client's "
                  "order (30% of quick and all thorough evaluations also against the solo runs). Oracle: every client's projection (its events -> "
                  "sorted lines naming it or its tag, tag normalised) is identical in all schedules, and no step about one client prints anything "
                  "about another. Non-trivial = >=2 conversations, two different schedules, at least one verdict.",
-                 500, 40000, {}, quick_s=80),
+                 900, 40000, {}, quick_s=80),
     "C08": _spec("protoburst", "65% of the runs are byte-stream runs: Three modes per run: robust (mutated/random byte streams from a recorded valid session, random read boundaries incl. >4096 "
                  "pending, EINTR/EAGAIN on reads, EOF at an arbitrary byte; oracle: no sanitizer report/signal/hang, exit 0, teardown), indiff (A line "
                  "per read vs B same bytes segmented+CRLF+read faults vs C junk interleaved; oracle: outputs equal, junk prints only notices), prefix "
@@ -229,27 +229,27 @@ PROPS = {
                  "files), 1-4 byte flips, slice deletion/duplication, random bytes, empty file, missing file, failing fread - always on top of a live "
                  "configuration. Oracle: the load returns, ASan clean; if it reported an error the dump of the live tree is identical before/after and no "
                  "hook ran. Non-trivial = at least one damaged load was rejected and compared.",
-                 1500, 100000, {"every_cut": True}, quick_s=80),
+                 3000, 100000, {"every_cut": True}, quick_s=80),
     "C15": _spec("conf", "Each run: 2-6 valid files (values of all four node kinds, nested objects, names changing kind between files, identical reloads), "
                  "registrations before the first load and after the k-th, with and without defaults (NULL default, empty list in the file, case-only "
                  "differences). Oracle: after every load and registration the dump equals the reference model (file value else default; unregistered "
                  "leftovers gone), required hooks ran, identical reload notifies nobody, ASan clean. Non-trivial = >=2 loads compared.",
-                 1500, 100000, {}, quick_s=80),
+                 3000, 100000, {}, quick_s=80),
     "C17": _spec("reload", "Each evaluation is two daemon lifetimes: R starts on the first of a chain of 2-4 configurations (service table over 4 names x "
                  "4 protocols, rule table over 5 names x 7 criteria), optionally serves clients to completion and leaves one pending, reloads through the "
                  "chain (entries added, removed, changed in place, remove-then-add; single or double SIGUSR1) and serves 2-5 probe clients; F is a fresh "
                  "daemon on the last configuration serving the same probes. Oracle: '? config' reports equal as sets (retired '-' entries ignored) and "
                  "every probe conversation identical after tag normalisation. Non-trivial = first and last configuration differ and a probe produced output.",
-                 900, 60000, {}, quick_s=80),
+                 2500, 60000, {}, quick_s=80),
     "C18": _spec("logs", "Each run: a logs section over facilities {*, core, config, va, vb}, severity expressions (names, comma lists, the five "
                  "operators, *, unknown names, empty items, missing '.', repeated keys) mapping to 1-3 of 4 files as a destination or a list; then 1-4 "
                  "reload steps (new section, identical, permuted/shortened, damaged file, burst of signals, messages emitted between two signals). After "
                  "each step one nonce line per (facility, severity != fatal) is emitted through log_message(); simulated clock advances between steps. "
                  "Oracle over the files: nonce present iff the section in force maps it there, never more copies than mappings, line format, facility/"
                  "severity attribution, simulated time stamp, trailing newline. Non-trivial = a reload happened and at least one pair was routed.",
-                 1200, 80000, {}, quick_s=80),
+                 4000, 80000, {}, quick_s=80),
     "C20": _spec("modules", "Each run: a dependency graph over 2-6 stub modules (random, chain, fork, diamond, dense; 20% with a self-loop or back edge), a "
                  "random subset listed in core.modules in random order (sometimes twice), and in 20% one module's file missing or not an ELF object. "
                  "Oracle over the recorded lifecycle history and exit status (see DESIGN 5/C20). Non-trivial = the closure of the listed modules has >= 2 modules.",
-                 1500, 80000, {}, quick_s=80),
+                 4000, 80000, {}, quick_s=80),
 }
